@@ -3,6 +3,7 @@ From RecordUpdate Require Import RecordSet.
 From PSO Require Import Raft.Types Raft.Node Raft.Net Raft.Obs Raft.ProofsApplyBase Raft.ProofsApply
   Raft.ProofsCallbacks Raft.ProofsCallbacks2.
 From PSO Require Import Raft.ProofsElectionGhost Raft.RefineMain Raft.ProofsCallbacksCore.
+From PSO Require Import Raft.Refine2Main Raft.ProofsCallbacksCore2 Raft.ProofsCallbacksFull2.
 Import ListNotations.
 Import RecordSetNotations.
 Open Scope N_scope.
@@ -161,3 +162,47 @@ Theorem C02_success_is_committed_core_partial :
                  nth_error (log xb) (N.to_nat (eidx en) - 1) = Some en.
 Proof. exact success_is_committed_core_partial. Qed.
 Print Assumptions C02_success_is_committed_core_partial.
+
+(* the same over the fragment WITH log compaction and snapshot install (Tier C2): entries are named
+   by their index; the fired entry is still held by the firing voter after the tick (the compaction
+   step of the tick cuts only below the position applied when the tick started) *)
+Theorem C02_success_is_committed_core2_partial :
+  forall (c : conf) (V : list nid) (evs1 : list event) (ev : event) (evs2 : list event)
+         (g1 g2 g3 : gstate) (x : nid) (s : S) (id r : N),
+  dyn c = false -> file_dump c = false -> 1 < batch c ->
+  valid V (evs1 ++ ev :: evs2) = true -> run_ok2 c ginit (evs1 ++ ev :: evs2) = true ->
+  run_trace c ginit evs1 = Some g1 -> gstep c g1 ev = Some (g2, Some (x, s)) -> x < RO_BASE ->
+  In (id, r, SUCCESS) (fired (outs s)) ->
+  run_trace c g2 evs2 = Some g3 ->
+  exists en x0 now rnd bud ord sl,
+    ev = ETick x now rnd bud ord sl /\ aget x (nodes g1) = Some x0 /\
+    aget x (nodes g2) = Some (nd s) /\
+    In en (log (nd s)) /\ applied x0 < eidx en /\ eidx en <= commit (nd s) /\
+    In (eterm en, id)
+       (local_subs (subs_of (eidx en)
+          (wait_commit (nd (tick_pre (mk_env c now rnd bud ord sl) (start_S (mk_env c now rnd bud ord sl) x0)))))) /\
+    forall b xb eb, aget b (nodes g3) = Some xb -> b < RO_BASE -> In eb (log xb) -> eidx eb = eidx en ->
+                    eidx en <= commit xb -> eb = en.
+Proof. exact success_is_committed_core2_partial. Qed.
+Print Assumptions C02_success_is_committed_core2_partial.
+
+(* with the id -> command link, for a command whose callback id was never parked in a pending-reply
+   table before the firing step (fwd_run collects those ids: the command was not forwarded, i.e. it
+   was appended by the node it was submitted at): the entry that fired the callback carries the
+   command submitted under that id at that node (ESubmit or ESetVer) *)
+Theorem C02_success_is_committed_core2_direct :
+  forall (c : conf) (V : list nid) (evs1 : list event) (ev : event) (evs2 : list event)
+         (g1 g2 g3 : gstate) (x : nid) (s : S) (id r : N),
+  dyn c = false -> file_dump c = false -> 1 < batch c ->
+  valid V (evs1 ++ ev :: evs2) = true -> run_ok2 c ginit (evs1 ++ ev :: evs2) = true ->
+  run_trace c ginit evs1 = Some g1 -> gstep c g1 ev = Some (g2, Some (x, s)) -> x < RO_BASE ->
+  In (id, r, SUCCESS) (fired (outs s)) ->
+  run_trace c g2 evs2 = Some g3 ->
+  ~ In id (fwd_run c ginit evs1) ->
+  exists en cm,
+    submitted x cm id evs1 /\ ecmd en = cm /\
+    In en (log (nd s)) /\ eidx en <= commit (nd s) /\
+    forall b xb eb, aget b (nodes g3) = Some xb -> b < RO_BASE -> In eb (log xb) -> eidx eb = eidx en ->
+                    eidx en <= commit xb -> eb = en.
+Proof. exact success_is_committed_core2_direct. Qed.
+Print Assumptions C02_success_is_committed_core2_direct.
